@@ -99,6 +99,7 @@ def mon_c03(k, domain, password, up_frames, wildcard=False, srv="srv"):
     authed = {}      # slot -> bool
     rawauthed = {}
     vack_in_interval = set()
+    rebind_ok = set()      # slots for which a correct (raw) login arrived since the previous snapshot
     by_dgram = {}    # datagram bytes -> frame bytes
     for f, rec in up_frames.items():
         for d in rec["dgrams"]:
@@ -150,6 +151,7 @@ def mon_c03(k, domain, password, up_frames, wildcard=False, srv="srv"):
                         if not rawauthed.get(uid):
                             st["c03_raw_logins_ok"] += 1
                         rawauthed[uid] = True
+                        rebind_ok.add(uid)
                 if f is not None:
                     seen_at_recv.add(f)
                     if rawauthed.get(up_frames[f]["slot"]):
@@ -179,6 +181,7 @@ def mon_c03(k, domain, password, up_frames, wildcard=False, srv="srv"):
                     if not authed.get(uid):
                         st["c03_logins_ok"] += 1
                     authed[uid] = True
+                    rebind_ok.add(uid)
             continue
         if kind == "tun_write":
             check_frame_effect(bytes(kw["data"]), ev, "tun_write")
@@ -287,6 +290,7 @@ def mon_c03(k, domain, password, up_frames, wildcard=False, srv="srv"):
             rows = kw["rows"]
             if rows is prev_rows:
                 vack_in_interval.clear()
+                rebind_ok.clear()
                 continue
             for u, r in enumerate(rows):
                 st["c03_snapshot_rows_checked"] += 1
@@ -300,6 +304,18 @@ def mon_c03(k, domain, password, up_frames, wildcard=False, srv="srv"):
                         "server table marks slot %d raw-authenticated without a correct raw login" % u, ev, slot=u)
                 if prev_rows is not None and u < len(prev_rows):
                     o = prev_rows[u]
+                    # the address a session is bound to (what source checking compares against, and where raw-mode
+                    # traffic goes) is set by the version handshake and by correct logins only
+                    ha = (o["host_family"], bytes(o["host_addr"]), o["host_port"])
+                    hb = (r["host_family"], bytes(r["host_addr"]), r["host_port"])
+                    if ha != hb and r["active"]:
+                        st["c03_rebinds_checked"] = st.get("c03_rebinds_checked", 0) + 1
+                        if u in vack_in_interval or u in rebind_ok:
+                            kinds.add(("session-rebound", "authorised"))
+                        else:
+                            bad("C03:session-rebound-without-login",
+                                "slot %d is now bound to %r (was %r) although neither a version handshake nor a correct response to its "
+                                "current challenge arrived in between" % (u, hb, ha), ev, slot=u)
                     a = (o["encbits"], o["downenc"], o["lazy"], o["fragsize"], o["conn"])
                     b = (r["encbits"], r["downenc"], r["lazy"], r["fragsize"], r["conn"])
                     if a != b and r["active"]:
@@ -315,6 +331,7 @@ def mon_c03(k, domain, password, up_frames, wildcard=False, srv="srv"):
                                 ev, slot=u)
             prev_rows = rows
             vack_in_interval.clear()
+            rebind_ok.clear()
     return viol, st, kinds
 
 
